@@ -64,12 +64,9 @@ def crossratio(
             raise NotConcurrent("The lines are not concurrent: " + str([a, b, c, d]))
 
         from_point = a.meet(b)
-        if a.dim == 2:
-            # points on the lines that cannot coincide with the vertex (the base points can)
-            e = LineCollection.from_array(np.conj(from_point.array))
-            a, b, c, d = a.meet(e), b.meet(e), c.meet(e), d.meet(e)
-        else:
-            a, b, c, d = a.base_point, b.base_point, c.base_point, d.base_point
+        # points on the lines that cannot coincide with the vertex (the base points can)
+        e = (LineCollection if a.dim == 2 else PlaneCollection).from_array(np.conj(from_point.array))
+        a, b, c, d = a.meet(e), b.meet(e), c.meet(e), d.meet(e)
 
     elif (
         isinstance(a, PlaneTensor)
